@@ -1,19 +1,33 @@
 // C18 harness: error locations and response paths.
 //
 // Stream a  EXHAUSTIVE  location.GetLocation vs the Lean model (M = loop, S = spec) and vs the harness's own forward
-//           scan, for every string over {a, LF, CR} up to length 6 (quick) / 9 (thorough) and every offset 0..len+2,
-//           plus the nil source.
+//
+//	scan, for every string over {a, LF, CR} up to length 6 (quick) / 9 (thorough) and every offset 0..len+2,
+//	plus the nil source.
+//
 // Stream b  syntax errors: documents of gen.DocGen (Exotic) that the real parser accepts, tokenised by the
-//           harness's own tokenizer, mutated (illegal character, token deletion / insertion / swap, byte flip,
-//           truncation) and laid out again with random LF/CR/CRLF/indentation/commas/comments. See caseB for what
-//           is checked exactly and what is only one-sided.
+//
+//	harness's own tokenizer, mutated (illegal character, token deletion / insertion / swap, byte flip,
+//	truncation) and laid out again with random LF/CR/CRLF/indentation/commas/comments. See caseB for what
+//	is checked exactly and what is only one-sided.
+//
 // Stream c  validation errors: documents valid against the schema of schema.go with one faulty selection inserted
-//           at a known place, laid out randomly; the error's locations must be the (line, column) of the start of
-//           the offending nodes as the harness computes them from its own layout.
+//
+//	at a known place, laid out randomly; the error's locations must be the (line, column) of the start of
+//	the offending nodes as the harness computes them from its own layout.
+//
 // Stream d  field errors of graphql.Do: resolvers fail at response positions chosen by a hash of their own address
-//           (parent address + response key / list index, not ResolveInfo.Path); every error must carry exactly the
-//           path of a position that failed (as multisets), the data at that path or at a prefix must be null, and
-//           the locations must be the starts of the field nodes with that response key.
+//
+//	(parent address + response key / list index, not ResolveInfo.Path); every error must carry exactly the
+//	path of a position that failed (as multisets), the data at that path or at a prefix must be null, and
+//	the locations must be the starts of the field nodes with that response key.
+//
+// Stream e  the erroneous requests of streams c and d served as sequences of layout variants (fresh layout, leading /
+//
+//	trailing padding, exact repetition; one or two documents interleaved) through ONE PlanCache (Normalize off / on,
+//	MaxEntries default / 2 / 1) via PlanCache.Get + ExecutePlan; every answer is judged against the text of the
+//	request that produced it.
+//
 // Stream p  the real ResponsePath.WithKey / AsArray against the Lean model on random key / index lists.
 package main
 
@@ -44,7 +58,7 @@ type caseT struct {
 	Stream   string           `json:"stream"`
 	Body     string           `json:"body"` // base64 of the request text
 	Text     string           `json:"text,omitempty"`
-	Pos      []int            `json:"pos,omitempty"`    // a: offsets to query
+	Pos      []int            `json:"pos,omitempty"` // a: offsets to query
 	NilSrc   bool             `json:"nil_source,omitempty"`
 	Kind     string           `json:"kind,omitempty"`   // b: mutation, c: fault
 	LB       int              `json:"lb,omitempty"`     // b: lowest admissible error offset
@@ -53,6 +67,22 @@ type caseT struct {
 	FailSeed uint64           `json:"fail_seed,omitempty"`
 	Marks    map[string][]int `json:"marks,omitempty"` // d: response key -> offsets of its field nodes, collection order
 	Keys     []interface{}    `json:"keys,omitempty"`  // p: keys (string) and list indices (number) passed to WithKey
+	// e: a sequence of requests served through ONE PlanCache
+	Steps      []stepT `json:"steps,omitempty"`
+	Normalize  bool    `json:"normalize,omitempty"`
+	MaxEntries int     `json:"max_entries,omitempty"`
+}
+
+// stepT is one request of a cache sequence: a layout variant of document Doc.
+type stepT struct {
+	Doc      int              `json:"doc"`
+	Type     string           `json:"type"` // "c": one validation fault, "d": executes with failing resolvers
+	Variant  string           `json:"variant"`
+	Body     string           `json:"body"`
+	Kind     string           `json:"kind,omitempty"`
+	Expect   []int            `json:"expect,omitempty"`
+	Marks    map[string][]int `json:"marks,omitempty"`
+	FailSeed uint64           `json:"fail_seed,omitempty"`
 }
 
 var (
@@ -261,7 +291,7 @@ func parseErr(body string) (e *gqlerrors.Error, ok bool, other error, panicked i
 // caseB checks one mutated text. Exactly this is checked for every syntax error the parser reports:
 //  1. the error carries one position and one location, and checkLocation holds for them (always, also for
 //     non-ASCII texts);
-//  and, unless a byte >= 0x80 occurs before the reported position or before the bound (D-03a: rune-based offsets),
+//     and, unless a byte >= 0x80 occurs before the reported position or before the bound (D-03a: rune-based offsets),
 //  2. LB <= position: the text before LB is, by construction of the mutation, a prefix of the text of a document the
 //     parser accepts (same tokens, other layout), so the first offending token cannot start before LB;
 //  3. position <= UB where the harness knows the offending lexeme exactly (UB >= 0): an illegal character inserted at
@@ -270,6 +300,7 @@ func parseErr(body string) (e *gqlerrors.Error, ok bool, other error, panicked i
 //     `|` / `&` inserted between the tokens of an executable-only document (never viable there);
 //  4. self-consistency, when the reported position does not directly adjoin the previous lexeme: parsing the text
 //     truncated at the reported position does not report an error before it.
+//
 // Not checked: the upper bound for deletion / insertion / swap / byte-flip mutants (that needs a viable-prefix
 // recogniser for the whole grammar, which is C03's model).
 func caseB(c caseT) {
@@ -550,14 +581,19 @@ func offsetsOf(toks []gen.Tok, starts []int, marks []string) ([]int, bool) {
 	return out, true
 }
 
-func genC(r *hx.Rng) (caseT, bool) {
+// faultyDoc: the tokens of a schema-valid document with one inserted fault, the marks of the nodes the error must name, the fault kind.
+func faultyDoc(r *hx.Rng) ([]gen.Tok, []string, string) {
 	g, root := newDoc(hx.NewRng(r.U64()), false)
 	fr := hx.NewRng(r.U64())
 	set := g.sets[fr.Intn(len(g.sets))]
 	it, marks, kind := g.fault(faultKinds[fr.Intn(len(faultKinds))], set.sc, fr)
 	at := fr.Intn(len(set.items) + 1)
 	set.items = append(set.items[:at], append([]*item{it}, set.items[at:]...)...)
-	toks := g.document(root)
+	return g.document(root), marks, kind
+}
+
+func genC(r *hx.Rng) (caseT, bool) {
+	toks, marks, kind := faultyDoc(r)
 	text, starts := gen.Layout(r, toks, gen.LayoutOpts{NonASCII: r.Chance(1, 12), Dense: r.Chance(1, 4)})
 	exp, ok := offsetsOf(toks, starts, marks)
 	if !ok {
@@ -582,7 +618,7 @@ func caseC(c caseT) {
 			maxExp = e
 		}
 	}
-	ascii := na < 0             // whole-document oracle (exactly one error) needs an ASCII text: D-03a may change the token stream after a multi-byte character
+	ascii := na < 0                      // whole-document oracle (exactly one error) needs an ASCII text: D-03a may change the token stream after a multi-byte character
 	nodeIntact := na < 0 || na >= maxExp // the faulty node itself lies before any multi-byte character
 	doc, err := parser.Parse(parser.ParseParams{Source: body})
 	if err != nil {
@@ -667,16 +703,25 @@ func caseC(c caseT) {
 
 // ---------------------------------------------------------------- stream d
 
-func genD(r *hx.Rng) (caseT, bool) {
+func execDoc(r *hx.Rng) []gen.Tok {
 	g, root := newDoc(hx.NewRng(r.U64()), true)
-	toks := g.document(root)
-	text, starts := gen.Layout(r, toks, gen.LayoutOpts{Dense: r.Chance(1, 4)})
+	return g.document(root)
+}
+
+func fieldMarks(toks []gen.Tok, starts []int) map[string][]int {
 	marks := map[string][]int{}
 	for i, t := range toks {
 		if strings.HasPrefix(t.Mark, "F:") {
 			marks[t.Mark[2:]] = append(marks[t.Mark[2:]], starts[i])
 		}
 	}
+	return marks
+}
+
+func genD(r *hx.Rng) (caseT, bool) {
+	toks := execDoc(r)
+	text, starts := gen.Layout(r, toks, gen.LayoutOpts{Dense: r.Chance(1, 4)})
+	marks := fieldMarks(toks, starts)
 	return caseT{Stream: "d", Body: b64(text), FailSeed: r.U64() | 1, Marks: marks}, true
 }
 
@@ -854,6 +899,282 @@ func caseD(c caseT) {
 	}
 }
 
+// ---------------------------------------------------------------- stream e (requests served through one PlanCache)
+
+// genE builds a sequence of requests for one shared PlanCache: one or two documents (each either with one validation
+// fault or executing with failing resolvers), each in several layout variants — a fresh random layout of the same
+// tokens, an earlier variant padded with leading / trailing white space, line terminators, commas or comments, or an
+// exact repetition — interleaved. The expectations of every step are the offsets of the marked tokens in THAT step's text.
+func genE(r *hx.Rng) (caseT, bool) {
+	c := caseT{Stream: "e", Normalize: r.Chance(1, 2), MaxEntries: []int{0, 2, 1}[r.Intn(3)]}
+	nd := r.Range(1, 2)
+	var perDoc [][]stepT
+	for d := 0; d < nd; d++ {
+		typ := "d"
+		if r.Chance(1, 2) {
+			typ = "c"
+		}
+		var toks []gen.Tok
+		var marks []string
+		var kind string
+		var fs uint64
+		if typ == "c" {
+			toks, marks, kind = faultyDoc(r)
+		} else {
+			toks = execDoc(r)
+			fs = r.U64() | 1
+		}
+		type laid struct {
+			text   string
+			starts []int
+		}
+		var vs []laid
+		var steps []stepT
+		n := r.Range(2, 4)
+		for v := 0; v < n; v++ {
+			var l laid
+			variant := "layout"
+			switch k := r.Intn(4); {
+			case v == 0 || k == 0:
+				l.text, l.starts = gen.Layout(r, toks, gen.LayoutOpts{Dense: r.Chance(1, 3)})
+			case k == 1:
+				variant = "repeat"
+				l = vs[r.Intn(len(vs))]
+			default:
+				variant = "pad"
+				base := vs[r.Intn(len(vs))]
+				pre, post := "", ""
+				if r.Chance(3, 4) {
+					pre = r.Pick([]string{" ", "\n", "\n\n    ", "\r\n", "\r", "\t", "\n  \r\n ", ",", "# c\n", "\r\n# x\r\n  "})
+				}
+				if r.Chance(1, 2) || pre == "" {
+					post = r.Pick([]string{" ", "\n", "\r\n", "  \n\n", "\t", " # end", ","})
+				}
+				l.text = pre + base.text + post
+				l.starts = make([]int, len(base.starts))
+				for i, st := range base.starts {
+					l.starts[i] = st + len(pre)
+				}
+			}
+			vs = append(vs, l)
+			st := stepT{Doc: d, Type: typ, Variant: variant, Body: b64(l.text), Kind: kind, FailSeed: fs}
+			if typ == "c" {
+				exp, ok := offsetsOf(toks, l.starts, marks)
+				if !ok {
+					run.CheckError("generator lost a fault mark")
+					return caseT{}, false
+				}
+				st.Expect = exp
+			} else {
+				st.Marks = fieldMarks(toks, l.starts)
+			}
+			steps = append(steps, st)
+		}
+		perDoc = append(perDoc, steps)
+	}
+	// interleave, keeping each document's own order
+	for len(perDoc) > 0 {
+		i := r.Intn(len(perDoc))
+		c.Steps = append(c.Steps, perDoc[i][0])
+		perDoc[i] = perDoc[i][1:]
+		if len(perDoc[i]) == 0 {
+			perDoc = append(perDoc[:i], perDoc[i+1:]...)
+		}
+	}
+	return c, true
+}
+
+func locsOf(e gqlerrors.FormattedError) []loc {
+	ls := []loc{}
+	for _, l := range e.Locations {
+		ls = append(ls, loc{l.Line, l.Column})
+	}
+	return ls
+}
+
+// verdictValidation judges the errors PlanCache.Get returned for a document with one validation fault against the layout `body`.
+func verdictValidation(body string, expect []int, errs []gqlerrors.FormattedError) (string, map[string]interface{}) {
+	lc := gen.NewLineCol(body)
+	want := []loc{}
+	for _, off := range expect {
+		want = append(want, loc{lc.Line[off], lc.Col[off]})
+	}
+	det := map[string]interface{}{"errors": errs, "expected_locations": want, "expected_offsets": expect}
+	if len(errs) != 1 {
+		return fmt.Sprintf("expected exactly one validation error for the single fault, got %d", len(errs)), det
+	}
+	if hx.Canon(locsOf(errs[0])) != hx.Canon(want) {
+		return "validation error is not located at the start of the offending node(s) in this request's text", det
+	}
+	if oe, _ := errs[0].OriginalError().(*gqlerrors.Error); oe != nil && len(oe.Positions) == len(want) {
+		for i, pos := range oe.Positions {
+			if note, d := checkLocation(body, lc, pos, want[i]); note != "" {
+				return note, d
+			}
+		}
+	}
+	return "", nil
+}
+
+// verdictExecution judges the result of ExecutePlan against the layout `body`: paths = failed positions, null at
+// path or prefix, locations = starts of the field nodes with the response key in this request's text.
+func verdictExecution(body string, marks map[string][]int, res *graphql.Result, w *world) (string, map[string]interface{}) {
+	lc := gen.NewLineCol(body)
+	det := map[string]interface{}{"failed_positions": w.failed, "data": res.Data}
+	got := []string{}
+	for _, e := range res.Errors {
+		if e.Path == nil {
+			det["errors"] = res.Errors
+			return "an error of an executed request carries no path", det
+		}
+		s, _, _ := pathString(e.Path)
+		got = append(got, s)
+	}
+	det["error_paths"] = got
+	want := append([]string{}, w.failed...)
+	sort.Strings(want)
+	sort.Strings(got)
+	if hx.Canon(got) != hx.Canon(want) {
+		return "the paths of the field errors are not exactly the response positions at which resolvers failed", det
+	}
+	for _, e := range res.Errors {
+		ps, lastKey, _ := pathString(e.Path)
+		det["error"] = map[string]interface{}{"message": e.Message, "path": e.Path, "locations": e.Locations}
+		if ok, why := nullAtPathOrPrefix(res.Data, e.Path); !ok {
+			return "field error at " + ps + ": " + why, det
+		}
+		wantLocs := []loc{}
+		for _, off := range marks[lastKey] {
+			wantLocs = append(wantLocs, loc{lc.Line[off], lc.Col[off]})
+		}
+		det["expected_locations"] = wantLocs
+		if hx.Canon(locsOf(e)) != hx.Canon(wantLocs) {
+			return "field error at " + ps + " is not located at the start of its field node(s) in this request's text", det
+		}
+		if oe, _ := e.OriginalError().(*gqlerrors.Error); oe != nil && len(oe.Positions) == len(wantLocs) {
+			for i, pos := range oe.Positions {
+				if note, d := checkLocation(body, lc, pos, wantLocs[i]); note != "" {
+					return note, d
+				}
+			}
+		}
+	}
+	return "", nil
+}
+
+// caseE serves the steps in order through one PlanCache (Get, then ExecutePlan with the SynthArgs merged) and judges every
+// answer against the text of the request that produced it.
+func caseE(c caseT) {
+	pc := graphql.NewPlanCache(graphql.PlanCacheOptions{Normalize: c.Normalize, MaxEntries: c.MaxEntries})
+	mode := fmt.Sprintf("e:normalize=%v,max=%d", c.Normalize, c.MaxEntries)
+	key := "e|" + mode
+	for _, st := range c.Steps {
+		key += "|" + st.Body
+	}
+	nontrivial := false
+	for i, st := range c.Steps {
+		for _, prev := range c.Steps[:i] {
+			if prev.Doc == st.Doc && prev.Body != st.Body {
+				nontrivial = true // a second layout of a document already served through this cache
+			}
+		}
+	}
+	run.Case(key, nontrivial, map[string]interface{}{"stream": "e", "normalize": c.Normalize, "max_entries": c.MaxEntries, "steps": len(c.Steps)})
+	run.Tag(mode)
+	populator := map[int]*stepT{}
+	for i, st := range c.Steps {
+		b, _ := base64.StdEncoding.DecodeString(st.Body)
+		body := string(b)
+		run.Tag("e:step:" + st.Type + ":" + st.Variant)
+		var pr graphql.PlanResult
+		var res *graphql.Result
+		theWorld = &world{seed: st.FailSeed, modes: map[string]int{}}
+		var pan interface{}
+		var missesBefore, missesAfter uint64
+		func() {
+			defer func() {
+				if r := recover(); r != nil {
+					pan = fmt.Sprint(r)
+				}
+			}()
+			_, missesBefore = pc.HitsMisses()
+			pr = pc.Get(&schema, body, "")
+			_, missesAfter = pc.HitsMisses()
+			if len(pr.Errors) == 0 && pr.Plan != nil {
+				res = graphql.ExecutePlan(pr.Plan, graphql.ExecuteParams{Schema: schema, Args: pr.SynthArgs})
+			}
+		}()
+		w := theWorld
+		judge := func(layout stepT) (string, map[string]interface{}) {
+			lb, _ := base64.StdEncoding.DecodeString(layout.Body)
+			if st.Type == "c" {
+				return verdictValidation(string(lb), layout.Expect, pr.Errors)
+			}
+			return verdictExecution(string(lb), layout.Marks, res, w)
+		}
+		report := func(note string, det map[string]interface{}) {
+			if det == nil {
+				det = map[string]interface{}{}
+			}
+			det["step"] = i
+			det["step_text"] = body
+			hits, misses := pc.HitsMisses()
+			det["cache_hits"], det["cache_misses"] = hits, misses
+			c.Body = st.Body
+			violation(fmt.Sprintf("request %d of a sequence through one PlanCache (Normalize=%v, MaxEntries=%d): %s", i+1, c.Normalize, c.MaxEntries, note), c, det)
+		}
+		switch {
+		case pan != nil:
+			report("PlanCache.Get / ExecutePlan panicked", map[string]interface{}{"panic": pan})
+			return
+		case st.Type == "d" && res == nil:
+			if len(pr.Errors) > 0 {
+				run.CheckError("stream e: executing document rejected by PlanCache.Get: " + pr.Errors[0].Message + " " + strconv.Quote(body))
+			} else {
+				run.CheckError("stream e: PlanCache.Get returned neither plan nor errors")
+			}
+			return
+		}
+		if !c.Normalize {
+			// plain cache: every answer must be located in the text of the request that produced it
+			if note, det := judge(st); note != "" {
+				report(note, det)
+				return
+			}
+			continue
+		}
+		// Normalising cache (known finding D-18e, class normalisedPlanCacheKeepsFirstLayoutPositions): layout variants share
+		// one entry, and what holds exactly is: the answer is located in the text of the request that POPULATED the entry
+		// (the latest request of this document that was a cache miss). Anything else is a violation.
+		if missesAfter > missesBefore || populator[st.Doc] == nil {
+			cp := st
+			populator[st.Doc] = &cp
+		} else {
+			run.Tag("e:normalising-hit")
+		}
+		owner := *populator[st.Doc]
+		if note, det := judge(owner); note != "" {
+			if det == nil {
+				det = map[string]interface{}{}
+			}
+			det["populating_request"] = owner
+			report("(judged against the request that populated the cache entry) "+note, det)
+			return
+		}
+		if owner.Body != st.Body {
+			if note, _ := judge(st); note != "" {
+				run.KnownFinding("normalisedPlanCacheKeepsFirstLayoutPositions", "a normalising PlanCache answers a re-laid-out request with the error locations of the layout that populated the entry: `{ ok boom }` then `\\n\\n    { ok boom }` -> second answer located 1:6 instead of 3:10")
+				run.Tag("e:known-finding-step")
+			}
+		}
+		continue
+	}
+	hits, _ := pc.HitsMisses()
+	if hits > 0 {
+		run.Tag("e:sequence-with-cache-hit")
+	}
+}
+
 // ---------------------------------------------------------------- stream p (ResponsePath model vs real)
 
 // caseP builds a real *graphql.ResponsePath by WithKey from the nil path and compares AsArray with the model.
@@ -928,6 +1249,8 @@ func dispatch(c caseT) {
 		caseD(c)
 	case "p":
 		caseP(c)
+	case "e":
+		caseE(c)
 	default:
 		run.CheckError("unknown stream " + c.Stream)
 	}
@@ -981,6 +1304,7 @@ func main() {
 		{"c", run.N(1500, 60000), genC},
 		{"d", run.N(1200, 50000), genD},
 		{"p", run.N(300, 5000), genP},
+		{"e", run.N(500, 30000), genE},
 	}
 	// directed cases of stream b (exact oracle known by hand)
 	for _, d := range []struct {
